@@ -1,4 +1,5 @@
 import TsV.Model.Files
+import TsV.Lemmas.Rename
 /-!
 # C14, file names: one output file per crate — is `output_file_name` injective?
 
@@ -7,36 +8,44 @@ entry per crate (`Props/C14.lean`: `collect_lookup`, `partition_*`).  "Each type
 crate" therefore also needs *different crates to get different files*.  That holds for five languages and fails for Swift, whose file
 name is the PascalCase form of the crate name: `SharedModels` and `shared_models` are two crates and one file, so the module written
 second replaces the first (replayed on the real binary by `tools/c14.py`, open finding `swift-module-file-collision`).
+
+Since the `fix:` commit 8f4a2d5 `to_pascal_case` asks `char::is_lowercase` (its "all uppercase" test), so the Swift file name and
+with it the statements here take the Unicode tables `U` of Rust `std` as a parameter; the witness holds for every table that is
+right about ASCII.
 -/
 namespace TsV.C14
 open TsV TsV.Files
 
 /-- the full statement: different crates never share an output file -/
-def C14_file_names_full : Prop :=
-  ∀ (l : Lang) (a b : Str), outputFileName l a = outputFileName l b → a = b
+def C14_file_names_full (U : UnicodeOps) : Prop :=
+  ∀ (l : Lang) (a b : Str), outputFileName U l a = outputFileName U l b → a = b
 
 /-- the inputs on which it fails: Swift, two different crate names with one PascalCase form (decidable) -/
-def Known_swift_file_collision (l : Lang) (a b : Str) : Prop :=
-  l = .swift ∧ a ≠ b ∧ Rename.toPascal a = Rename.toPascal b
+def Known_swift_file_collision (U : UnicodeOps) (l : Lang) (a b : Str) : Prop :=
+  l = .swift ∧ a ≠ b ∧ Rename.toPascal U a = Rename.toPascal U b
 
-instance (l : Lang) (a b : Str) : Decidable (Known_swift_file_collision l a b) := by
+instance (U : UnicodeOps) (l : Lang) (a b : Str) : Decidable (Known_swift_file_collision U l a b) := by
   unfold Known_swift_file_collision; infer_instance
 
 /-- kernel-checked witness: two crates, one Swift file -/
-theorem swift_file_names_collide :
-    outputFileName .swift s%"SharedModels" = outputFileName .swift s%"shared_models" ∧
-      (s%"SharedModels" : Str) ≠ s%"shared_models" := by decide
+theorem swift_file_names_collide (U : UnicodeOps) (hU : U.AsciiCorrect) :
+    outputFileName U .swift s%"SharedModels" = outputFileName U .swift s%"shared_models" ∧
+      (s%"SharedModels" : Str) ≠ s%"shared_models" := by
+  refine ⟨?_, by decide⟩
+  simp only [outputFileName]
+  rw [RenameLemmas.toPascal_asciiTable U hU _ (by decide), RenameLemmas.toPascal_asciiTable U hU s%"shared_models" (by decide)]
+  decide
 
-theorem C14_file_names_not_full : ¬ C14_file_names_full := fun h =>
-  absurd (h .swift s%"SharedModels" s%"shared_models" swift_file_names_collide.1) swift_file_names_collide.2
+theorem C14_file_names_not_full (U : UnicodeOps) (hU : U.AsciiCorrect) : ¬ C14_file_names_full U := fun h =>
+  absurd (h .swift s%"SharedModels" s%"shared_models" (swift_file_names_collide U hU).1) (swift_file_names_collide U hU).2
 
-example : Known_swift_file_collision .swift s%"SharedModels" s%"shared_models" := by
+example : Known_swift_file_collision .ascii .swift s%"SharedModels" s%"shared_models" := by
   unfold Known_swift_file_collision; decide
 
 /-- outside the known class the file name determines the crate: for TypeScript, Kotlin, Scala, Go and Python always, for Swift
 whenever the PascalCase forms differ -/
-theorem C14_file_names_partial (l : Lang) (a b : Str) (h : outputFileName l a = outputFileName l b)
-    (hk : ¬ Known_swift_file_collision l a b) : a = b := by
+theorem C14_file_names_partial (U : UnicodeOps) (l : Lang) (a b : Str) (h : outputFileName U l a = outputFileName U l b)
+    (hk : ¬ Known_swift_file_collision U l a b) : a = b := by
   by_cases hab : a = b
   · exact hab
   · exfalso
@@ -45,16 +54,16 @@ theorem C14_file_names_partial (l : Lang) (a b : Str) (h : outputFileName l a = 
     all_goals exact hab h
 
 /-- the exact characterisation: two different crates share a file iff they are in the known class -/
-theorem C14_file_names_iff (l : Lang) (a b : Str) (hab : a ≠ b) :
-    outputFileName l a = outputFileName l b ↔ Known_swift_file_collision l a b := by
+theorem C14_file_names_iff (U : UnicodeOps) (l : Lang) (a b : Str) (hab : a ≠ b) :
+    outputFileName U l a = outputFileName U l b ↔ Known_swift_file_collision U l a b := by
   constructor
   · intro h
-    exact Classical.byContradiction fun hk => hab (C14_file_names_partial l a b h hk)
+    exact Classical.byContradiction fun hk => hab (C14_file_names_partial U l a b h hk)
   · rintro ⟨rfl, _, hp⟩
     simp [outputFileName, hp]
 
 /-- non-vacuity of the partial statement: an ordinary pair of crates -/
-example : ¬ Known_swift_file_collision .swift s%"alpha" s%"beta_x" := by
+example : ¬ Known_swift_file_collision .ascii .swift s%"alpha" s%"beta_x" := by
   unfold Known_swift_file_collision; decide
 
 end TsV.C14
